@@ -11,10 +11,13 @@ pub fn hex(b: &[u8]) -> String { let mut s = String::with_capacity(b.len()*2); f
 
 /// scripted stream: `acc` = how many bytes each write call accepts (empty = everything); `werr` = fail the k-th write;
 /// `ferr` = flush fails; `rerr` = read fails
-pub struct Mock { pub inp: Vec<u8>, pub pos: usize, pub out: Vec<u8>, pub acc: Vec<usize>, pub nwrite: usize, pub werr: Option<usize>, pub ferr: bool, pub rerr: bool }
-impl Mock { pub fn new(inp: Vec<u8>) -> Mock { Mock{inp, pos:0, out:vec![], acc:vec![], nwrite:0, werr:None, ferr:false, rerr:false} } }
+pub struct Mock { pub inp: Vec<u8>, pub pos: usize, pub out: Vec<u8>, pub acc: Vec<usize>, pub nwrite: usize, pub werr: Option<usize>, pub ferr: bool, pub rerr: bool, pub rk: usize }
+impl Mock { pub fn new(inp: Vec<u8>) -> Mock { Mock{inp, pos:0, out:vec![], acc:vec![], nwrite:0, werr:None, ferr:false, rerr:false, rk: RK.fetch_add(1, std::sync::atomic::Ordering::SeqCst)} } }
+/// the kind of error a failing read reports is fixed per connection and rotates over connections: a reset, and the three kinds a caller
+/// may be tempted to retry
+static RK: std::sync::atomic::AtomicUsize = std::sync::atomic::AtomicUsize::new(0);
 impl Read for Mock { fn read(&mut self, b: &mut [u8]) -> std::io::Result<usize> {
-    if self.rerr { return Err(std::io::Error::new(std::io::ErrorKind::ConnectionReset, "reset")); }
+    if self.rerr { return Err(std::io::Error::new([std::io::ErrorKind::ConnectionReset, std::io::ErrorKind::TimedOut, std::io::ErrorKind::WouldBlock, std::io::ErrorKind::Interrupted][self.rk % 4], "read fails")); }
     let n = std::cmp::min(b.len(), self.inp.len()-self.pos); b[..n].copy_from_slice(&self.inp[self.pos..self.pos+n]); self.pos+=n; Ok(n) } }
 impl Write for Mock {
     fn write(&mut self, b: &[u8]) -> std::io::Result<usize> {
